@@ -46,7 +46,9 @@ def _short(v, n=160):
 
 class Sub:
     def __init__(self, name, run, strategy=None, enum=None, examples=None, known=None, doc='',
-                 enum_exhaustive_note=None, ambient=()):
+                 enum_exhaustive_note=None, ambient=(), fuzz=False):
+        # fuzz: in the thorough tier additionally run a coverage-guided atheris campaign over this sub-check's strategy (supplementary)
+        self.fuzz = fuzz
         # ambient: names of module options ('bytealigned') that must NOT influence this sub-check; the engine turns them
         # on in a quarter of the generated cases (key '_amb' of the case) before calling run().
         self.ambient = tuple(ambient)
@@ -216,8 +218,53 @@ class _Stop(Exception):
     pass
 
 
+def fuzz_task(modname, subname, tier, seed, shard, budget_s):
+    """coverage-guided campaign (atheris + hypothesis fuzz_one_input) in a child interpreter; see vf/fuzz.py"""
+    import subprocess
+    import shutil
+    t0 = time.time()
+    out_dir = os.path.join(os.environ.get('VF_TMP', '/tmp'), f'fuzz_{subname}_{shard}')
+    env = dict(os.environ)
+    env['PYTHONPATH'] = f"{REPO}:{HERE}:{os.path.join(HERE, '.deps')}"
+    secs = int(os.environ.get('VF_FUZZ_S', '60'))
+    st = {'sub': subname, 'shard': shard, 'evals': 0, 'nt': [], 'samples': [], 'labels': {}, 'excluded': {}, 'fail': None, 'harness': None, 'enum_total': 0,
+          'enum_done': True, 'timed_out': False, 'fuzz': True}
+    try:
+        r = subprocess.run([sys.executable, '-m', 'vf.fuzz', modname, subname, tier, str(seed * 100 + shard + 1), '100000000', out_dir, str(secs)], capture_output=True, text=True,
+                           env=env, cwd=HERE, timeout=secs + 120)
+        try:
+            with open(os.path.join(out_dir, 'stats.json')) as f:
+                stats = json.load(f)
+            st['evals'] = stats['execs']
+            st['labels'] = {'atheris_execs': stats['execs'], 'atheris_nontrivial': stats['nontrivial']}
+        except Exception:
+            pass
+        fpath = os.path.join(out_dir, 'failure.json')
+        if os.path.exists(fpath):
+            with open(fpath) as f:
+                fl = json.load(f)
+            st['fail'] = {'case': fl['case'], 'msg': fl['msg'] + ' [found by the atheris campaign]'}
+        elif os.path.exists(os.path.join(out_dir, 'harness.txt')):
+            st['harness'] = open(os.path.join(out_dir, 'harness.txt')).read()[-1500:]
+        elif 'No module named' in r.stderr and 'atheris' in r.stderr:
+            st['labels'] = {'atheris_unavailable': 1}
+        elif r.returncode not in (0,) and 'ERROR: libFuzzer' in r.stderr and 'timeout' in r.stderr:
+            st['fail'] = {'case': {'note': 'libFuzzer timeout: a single case ran > 30 s; see artifact'}, 'msg': 'a generated case did not terminate within 30 s [atheris campaign]'}
+    except subprocess.TimeoutExpired:
+        st['harness'] = 'atheris campaign did not finish in time'
+    finally:
+        shutil.rmtree(out_dir, ignore_errors=True)
+    st['wall'] = time.time() - t0
+    return st
+
+
 def shard_task(args):
     modname, subname, tier, seed, shard, nshards, budget_s = args
+    if shard == 'fuzz':
+        try:
+            return fuzz_task(modname, subname, tier, seed, 0, budget_s)
+        except Exception as e:
+            return {'sub': subname, 'shard': 'fuzz', 'harness': ''.join(traceback.format_exception(type(e), e, e.__traceback__))[-2000:]}
     try:
         return _shard_task(modname, subname, tier, seed, shard, nshards, budget_s)
     except Exception as e:  # harness problem
@@ -493,6 +540,8 @@ def _run_property(prop_id, mod, tier, seed, only=None, jobs=None):
             k = 1
         for sh in range(k):
             tasks.append((mod.__name__, s.name, tier, seed, sh, k, budget))
+        if getattr(s, 'fuzz', False) and tier == 'thorough' and s.strategy is not None and os.path.isdir(os.path.join(HERE, '.deps', 'atheris')) and not os.environ.get('VF_NO_FUZZ'):
+            tasks.append((mod.__name__, s.name, tier, seed, 'fuzz', 1, budget))
     # interleave so that long sub-checks start early
     procs = min(int(os.environ.get('VF_PROCS', '16')), max(1, len(tasks)))
     results = run_tasks(tasks, procs, task_timeout=max(4 * budget, 600))
@@ -558,6 +607,8 @@ def _run_property(prop_id, mod, tier, seed, only=None, jobs=None):
                 subsum[name]['exhaustive_domain'] = s.enum_exhaustive_note
         if b['timed_out']:
             subsum[name]['stopped_by_wall_clock_budget'] = True
+        if 'atheris_execs' in b['labels']:
+            subsum[name]['atheris_campaign'] = {'execs': b['labels']['atheris_execs'], 'nontrivial': b['labels'].get('atheris_nontrivial', 0), 'driver': 'atheris.Fuzz over hypothesis fuzz_one_input (coverage-guided, supplementary)'}
     exhaustive_all = bool(subs) and all(s.strategy is None and s.enum is not None for s in subs) and all(
         by_sub.get(s.name, {}).get('enum_done', False) for s in subs)
     ev = {
